@@ -71,6 +71,7 @@ def int_ty(c):
 @model('PartialOrd::partial_cmp')
 def _partial_cmp(e, c, a):
     x, y = deref(a[0]), deref(a[1])
+    if isinstance(x, (Struct, VecObj, StrBuf, str, Enum)): return Some(M['Ord::cmp'](e, c, a))
     if isinstance(x, bool) or (is_sym(x) and z3.is_bool(x)):
         x, y = e.branch(x), e.branch(y)
         return Some(Enum('Less' if x < y else 'Equal' if x == y else 'Greater', [], 'Ordering'))
@@ -83,6 +84,19 @@ def _partial_cmp(e, c, a):
 @model('Ord::cmp')
 def _cmp(e, c, a):
     x, y = deref(a[0]), deref(a[1])
+    if isinstance(x, Struct) and isinstance(y, Struct):          # tuples / newtypes: lexicographic over the fields
+        for p, q in zip(x.f, y.f):
+            o = _cmp(e, c, [p, q])
+            if o.v != 'Equal': return o
+        return Enum('Equal', [], 'Ordering')
+    if isinstance(x, VecObj) and isinstance(y, VecObj):
+        for p, q in zip(x.items, y.items):
+            o = _cmp(e, c, [p, q])
+            if o.v != 'Equal': return o
+        return Enum('Less' if len(x.items) < len(y.items) else 'Equal' if len(x.items) == len(y.items) else 'Greater', [], 'Ordering')
+    if isinstance(x, Enum) and x.ty == 'Option':
+        if x.v != y.v: return Enum('Less' if x.v == 'None' else 'Greater', [], 'Ordering')
+        return _cmp(e, c, [x.f[0], y.f[0]]) if x.f else Enum('Equal', [], 'Ordering')
     if isinstance(x, (StrBuf, str)):
         xs = x.s if isinstance(x, StrBuf) else x; ys = y.s if isinstance(y, StrBuf) else y
         xb, yb = xs.encode(), ys.encode()
